@@ -41,6 +41,11 @@ pub mod operation {
 
 pub use crate::operation::{Operation, VendorOperation};
 
+pub mod sizes { use vstd::prelude::*; verus! {
+//@extract-file src/sizes.rs
+} }
+pub use crate::sizes::*;
+
 // ---- opaque payload types (scaffolding) -------------------------------------------------
 pub mod make_credential { use vstd::prelude::*; verus! {
     #[verifier::external_body] pub struct Request<'a> { _p: core::marker::PhantomData<&'a ()> } } }
